@@ -16,6 +16,7 @@ import (
 	"io"
 	"log"
 	"net"
+	"os"
 	"sort"
 	"testing"
 	"testing/synctest"
@@ -459,6 +460,22 @@ func vcGen(r *vfRng) vfCase {
 	}
 	c.Cfg = []int64{reclaim, gtd, mult, 1000, maxMult, awMax, conflict, cidr, int64(r.n(2))}
 	n := 6 + r.n(14)
+	// half of the histories start with a small population of live members, so that
+	// suspicion timers get k > 0 and later claims meet non-trivial prior views
+	if r.chance(50) {
+		for nm := 1; nm <= 2+r.n(3); nm++ {
+			c.Ops = append(c.Ops, []int64{0, 1 + int64(r.n(2)), int64(nm), 1 + int64(r.n(2)), int64(r.n(len(vcMetas))), 2, 0})
+		}
+		if r.chance(50) {
+			// a suspicion that is allowed to age
+			nm := int64(1 + r.n(3))
+			c.Ops = append(c.Ops, []int64{2, 1 + int64(r.n(2)), nm, int64(1 + r.n(4))})
+			c.Ops = append(c.Ops, []int64{5, int64(r.pick([]int{1000, 2500, 4500, 7000, 9000}))})
+			if r.chance(60) {
+				c.Ops = append(c.Ops, []int64{0, 3 + int64(r.n(2)), nm, int64(r.n(len(vcAddrs))), int64(r.n(len(vcMetas))), 2, 0})
+			}
+		}
+	}
 	for i := 0; i < n; i++ {
 		name := int64(r.n(len(vcNames)))
 		if r.chance(25) {
@@ -542,7 +559,12 @@ func TestVfCore(t *testing.T) {
 	for i := range cases {
 		synctest.Test(t, func(t *testing.T) { vcRun(t, &cases[i], st) })
 	}
-	if err := vfEmit(st, cases, "From VF Require Import Raw CoreCheck.", "check_case", true); err != nil {
+	// the property whose monitor decides (code range / 10); 0 = all
+	sel := map[string]string{"C01": "11", "C02": "12", "C07": "13", "C08": "14", "C18": "15", "C06": "16", "C09": "17"}[os.Getenv("VF_PROP")]
+	if sel == "" {
+		sel = "0"
+	}
+	if err := vfEmit(st, cases, "From VF Require Import Raw CoreCheck.", "check_case "+sel, true); err != nil {
 		t.Fatal(err)
 	}
 }
